@@ -14,7 +14,8 @@
 (***************************************************************************)
 EXTENDS Naturals, Sequences, FiniteSets, TLC
 
-CONSTANTS TypedDispatch        \* TRUE: dispatch on the kind of the preference (after the fix); FALSE: as built at 519253d
+CONSTANTS TypedDispatch,        \* TRUE: dispatch on the kind of the preference (after the fix); FALSE: as built at 519253d
+          NavWritesBack        \* names that navigation writes back into the user map as strings
 
 \* abstract names, one per class
 Names == {"apiString", "userString", "apiBool", "userBool", "apiNumber", "unknown", "created"}
@@ -74,7 +75,15 @@ SetPreference(n, v) ==
 \* set_mathml and the getters never write preferences
 SetMathML == alive /\ act' = [name |-> "", value |-> "", res |-> "set_mathml", before |-> "", kindBefore |-> "none"]
              /\ UNCHANGED <<user, api, alive>>
-Next == (\E n \in Names \ {"created"}, v \in Values : SetPreference(n, v)) \/ SetMathML
+\* do_navigate_command: apply_navigation_rules copies the navigation mode back into the USER map with set_user_prefs, which
+\* stores a string whatever the preference is.  NavWritesBack: the names it does that for (as built: NavMode, a string).
+Navigate == /\ alive
+            /\ \E v \in {"str1", "str2"} :
+                 user' = [n \in Names |-> IF n \notin NavWritesBack THEN user[n]
+                                          ELSE Val("string", IF user[n] # NoValue /\ user[n].kind # "string" THEN user[n].val ELSE v)]
+            /\ act' = [name |-> "", value |-> "", res |-> "navigate", before |-> "", kindBefore |-> "none"]
+            /\ UNCHANGED <<api, alive>>
+Next == (\E n \in Names \ {"created"}, v \in Values : SetPreference(n, v)) \/ SetMathML \/ Navigate
 Spec == Init /\ [][Next]_vars
 
 ---------------------------------------------------------------------------
@@ -92,4 +101,5 @@ NothingCreated == ~Known("unknown")
 ErrChangesNothing == [][act'.res = "err" => (user' = user /\ api' = api)]_vars
 OthersUntouched == [][act'.res = "ok" => \A m \in Names : m # act'.name => (user'[m] = user[m] /\ api'[m] = api[m])]_vars
 PersistsAcrossSetMathML == [][act'.res = "set_mathml" => (user' = user /\ api' = api)]_vars
+NavigationTouchesOnlyItsOwn == [][act'.res = "navigate" => (api' = api /\ \A m \in Names \ NavWritesBack : user'[m] = user[m])]_vars
 =============================================================================
